@@ -12,6 +12,8 @@
              of the list the node was unpacked from; all other paths raise; the
              candidate lists only grow inside their loops; the module is parsed
              whole
+ SRC-NOSTATE no function on the source-recovery path touches module-level mutable
+             state (a memo keyed by code object serves another function's text)
  SRC-GETTER  getimmediatesource uses findsource/getblock (never getsource, which
              follows __wrapped__) under the linecache lock; the linecache repair
              passes the namespace of the module that owns the file
@@ -87,6 +89,12 @@ class Taint:
           self.edits.append((n, '.%s() on recovered source text' % n.func.attr))
         if d in BAD_FUNCS and any(self.is_t(a) for a in n.args):
           self.edits.append((n, '%s() on recovered source text' % d))
+        # compiled pattern: PATTERN.sub(repl, text) / .subn
+        if isinstance(n.func, ast.Attribute) and n.func.attr in ('sub', 'subn') and \
+            d not in BAD_FUNCS and any(self.is_t(a) for a in list(n.args)[1:] + [
+                k.value for k in n.keywords if k.arg == 'string']):
+          self.edits.append((n, 'regular-expression substitution on recovered '
+                             'source text'))
         if d in SINKS and n.args and self.is_t(n.args[0]):
           self.sinks.append(n)
         if d and d not in SINKS:
@@ -110,6 +118,7 @@ def check(model, rep, tier):
            'whitespace', floor=1)
   rep.rule('SRC-LAMBDA', 'lambda returned only when unique; lists only grow; '
            'whole-module parse', floor=5)
+  rep.rule('SRC-NOSTATE', 'source recovery keeps no module-level state', floor=5)
   rep.rule('SRC-GETTER', 'immediate source via findsource/getblock under the '
            'lock; linecache repaired with the owning module', floor=3)
 
@@ -398,6 +407,46 @@ def check(model, rep, tier):
   rep.check(ok, 'SRC-GETTER', '%s:preamble' % pe.site,
             'the future-import preamble must be skipped by exactly its length',
             line=pe.node.lineno)
+
+  # ---------------------------------------------------------------- SRC-NOSTATE
+  # recovery is a function of the function object: nothing on the path may keep
+  # source text (or anything derived from it) in module-level state
+  SAFE_CTORS = {'frozenset', 're.compile', 'threading.Lock', 'threading.RLock',
+                'tuple', 'str', 'int', 'len', 'object'}
+  stateful = {}
+  for rel in (PARSER, IU):
+    m = model.module(rel)
+    for st in m.tree.body:
+      tg = v = None
+      if isinstance(st, ast.Assign) and len(st.targets) == 1 and isinstance(
+          st.targets[0], ast.Name):
+        tg, v = st.targets[0].id, st.value
+      elif isinstance(st, ast.AnnAssign) and isinstance(st.target, ast.Name) and st.value:
+        tg, v = st.target.id, st.value
+      if tg is None:
+        continue
+      if isinstance(v, (ast.Dict, ast.List, ast.Set, ast.DictComp, ast.ListComp,
+                        ast.SetComp)) or (isinstance(v, ast.Call) and (
+                            core.dotted(v.func) or '') not in SAFE_CTORS and not (
+                                core.dotted(v.func) or '').endswith('.count')):
+        stateful[(rel, tg)] = core.norm(v)[:50]
+  path_fns = [fi for fi, t in analysed] + [
+      model.func(IU, 'getimmediatesource'), model.func(IU, '_fix_linecache_record')]
+  seen_fn = set()
+  for fi in path_fns:
+    if fi.site in seen_fn:
+      continue
+    seen_fn.add(fi.site)
+    used = sorted({n.id for n in core.walk_no_nested(fi.node) if isinstance(n, ast.Name)
+                   and (fi.module.rel, n.id) in stateful})
+    rep.check(not used, 'SRC-NOSTATE', '%s:no-module-state' % fi.site,
+              'a function on the source-recovery path uses a module-level mutable '
+              'object: recovered text (or a decision about it) outlives the call '
+              'and can be served for a different function',
+              {'module_state_used': {u: stateful[(fi.module.rel, u)] for u in used}},
+              line=fi.node.lineno,
+              witness='two functions with equal code objects (same layout in two '
+              'files) and different defaults / decorators')
 
 
 def _guards(fn, target):
